@@ -98,7 +98,7 @@ class Side:
         return RateLimiter.create_limiter(kbps)
 
     # -- downloads ----------------------------------------------------------------------------
-    def new_download(self, local0: bytes | None):
+    def new_download(self, local0: bytes | None, bt0: int | None = None):
         """A download as the API creates it (QUEUED); local0 != None: an existing local file (as a
         transfer restored from the cache would have)."""
         from aioslsk.transfer.model import TransferDirection
@@ -109,6 +109,10 @@ class Side:
             p = self.W.tmp / f'pre{self.n}.bin'
             p.write_bytes(local0)
             tr.local_path = str(p)
+        if bt0 is not None:
+            # a progress counter that does not agree with the file (restored from a cache written
+            # mid-transfer, or a chunk written while the task was cancelled)
+            tr.bytes_transfered = bt0
         return tr
 
     def forget(self, tr):
@@ -149,15 +153,19 @@ class Side:
             obs.update(state=tr.state.VALUE.name, reply=bytes(pep.written))
             return obs
         loop.run_ready(30)
-        if ticket not in self.mgr._file_connection_futures:
+        if ticket not in self.mgr._file_connection_futures and not task.done():
             loop.run_ready(100)
         fc, fep = self.conn(PeerConnectionType.FILE)
         self.client.network._finalize_peer_connection(fc)
         fc.download_rate_limiter = self.limiter(kbps)
         if not send_ok:
             fep.write_error = ConnectionResetError('gone')
-        fep.feed(struct.pack('<I', ticket))
-        init = loop.create_task(self.mgr._on_peer_initialized(PeerInitializedEvent(fc, requested=False)))
+        if task.done():
+            # refused before anything started: the uploader would not open a file connection
+            init = loop.create_task(asyncio.sleep(0))
+        else:
+            fep.feed(struct.pack('<I', ticket))
+            init = loop.create_task(self.mgr._on_peer_initialized(PeerInitializedEvent(fc, requested=False)))
         loop.run_ready(60)
         wire = bytes(fep.written)
         segs, term = ([], 'timeout')
@@ -189,8 +197,21 @@ class Side:
         obs.update(state=tr.state.VALUE.name, fail_reason=tr.fail_reason, after=after, wire=wire,
                    bt=tr.bytes_transfered, reads=reads, closed=fep.client_closed, exc=exc,
                    stream=b''.join(segs), segs=[len(s) for s in segs], term=term, reply=bytes(pep.written),
-                   remotely_queued=tr.remotely_queued)
+                   remotely_queued=tr.remotely_queued, reply_allowed=self.reply_allowed(bytes(pep.written)))
         return obs
+
+    @staticmethod
+    def reply_allowed(buf: bytes):
+        from aioslsk.protocol.messages import PeerMessage, PeerTransferReply
+        out = []
+        for fr in fakes.split_frames(buf):
+            try:
+                m = PeerMessage.deserialize_request(fr)
+            except Exception:
+                continue
+            if isinstance(m, PeerTransferReply.Request):
+                out.append(bool(m.allowed))
+        return out
 
     # -- uploads ------------------------------------------------------------------------------
     def upload_attempt(self, src: bytes, filesize: int, offset_bytes: bytes | None, kbps=0, cut=None,
